@@ -105,3 +105,22 @@ Proof.
 Qed.
 
 End WithHash.
+
+(* ------------------------------------------------------------------ a log written by three writer epochs *)
+(* The commit-marker tiling of recover_from_frames_and_commits does not look at writer epochs; the
+   theorems quantify over logs with any epochs.  This concrete log has one transaction per epoch. *)
+Definition exPe (e i : N) : tx_params :=
+  {| p_epoch := e; p_seg := 1; p_tx := 200 + i; p_txkind := 1; p_codec := 2; p_schema := 3;
+     p_domain := 4; p_dur := 1; p_froot := 9 |}.
+Definition ex2_t1 : wtx := mk_tx exH (exPe 5 1) 0 77 78 [(1, [1; 2]); (2, [])].
+Definition ex2_t2 : wtx := mk_tx exH (exPe 6 2) 2 77 78 [(6, [7])].
+Definition ex2_t3 : wtx := mk_tx exH (exPe 7 3) 3 77 78 [(1, [9]); (22, [0])].
+Definition ex2_t4 : wtx := mk_tx exH (exPe 7 4) 5 77 78 [(2, [3])].
+Definition ex_log2 : list wtx := [ex2_t1; ex2_t2; ex2_t3; ex2_t4].
+
+Lemma ex2_log_valid : log_valid exH 0 ex_log2.
+Proof.
+  split.
+  - repeat constructor; try (vm_compute; reflexivity).
+  - vm_compute. repeat split; reflexivity.
+Qed.
